@@ -525,6 +525,11 @@ def verlet_oracle(ck, rng):
     ck.case(key=('VERLET', M), sample=None)
     if bad:
         ck.violation('verlet sweeper violates its position/velocity block form', {'M': M, 'dt': str(dt), 'failure': bad}, match={'kind': 'verlet-' + bad[0]})
+    fields = ['v_M := %d%%nat' % M, 'v_dt := %s' % qc(dt), 'v_t0 := %s' % qc(t0), 'v_nodes := %s' % qcl([0] + list(sw.coll.nodes)),
+              'v_Q := %s' % qcm(Q.tolist()), 'v_QQ := %s' % qcm(QQ.tolist()), 'v_Qx := %s' % qcm(Qx.tolist()), 'v_QT := %s' % qcm(QT.tolist()),
+              'v_k := %s' % qc(k), 'v_p := %s' % qcl([a for a, _ in uo]), 'v_v := %s' % qcl([b for _, b in uo]), 'v_f := %s' % qcl(fo)]
+    expected = [a for a, _ in un[1:]] + [b for _, b in un[1:]] + fn[1:]
+    return '({| %s |}, %s)' % ('; '.join(fields), qcl(expected))
 
 
 # ----------------------------------------------------------------------------------------- main
@@ -536,7 +541,7 @@ def run(ck):
     ck.rule = ('seeded cases over (sweeper class, M, node family, quadrature type, preconditioner name(s), sweep index k, tau mode, '
                'end-point mode, table source exact-float-image/injected-rational, dimension); distinct = that tuple; non-trivial = M >= 2 '
                'or tau present (a one-node sweep without tau has no off-diagonal coupling)')
-    ck.check_props(required=['C02_generic_implicit_matrix_form', 'C02_imex_matrix_form', 'C02_explicit_matrix_form', 'C02_multi_implicit_two_stage_form', 'C02_runge_kutta_stage_form', 'C02_imex_mass_matrix_form',
+    ck.check_props(required=['C02_generic_implicit_matrix_form', 'C02_imex_matrix_form', 'C02_explicit_matrix_form', 'C02_multi_implicit_two_stage_form', 'C02_runge_kutta_stage_form', 'C02_imex_mass_matrix_form', 'C02_verlet_block_form',
                              'C02_integrate_is_dtQF', 'C02_end_point_quadrature', 'C02_residual_is_defect'])
     from qmat.qdelta import QDELTA_GENERATORS
     from pySDC.implementations.sweeper_classes.generic_implicit import generic_implicit
@@ -667,5 +672,21 @@ def run(ck):
                              {'correspondence': 'Model/SweepExec.run_mass vs imex_1st_order_mass', 'first_differing': [r for r in res if r != -1][:5]},
                              match={'kind': 'mass-correspondence'}, no_input=True)
             ck.obligation('exact correspondence mass-sweeper model = implementation on %d cases' % len(res), nb == 0)
-    for _ in range(12 if thorough else 4):
-        verlet_oracle(ck, rng)
+    vcases = [c for c in (verlet_oracle(ck, rng) for _ in range(24 if thorough else 8)) if c]
+    if vcases:
+        body = ['From Coq Require Import List ZArith QArith Qcanon.', 'From PySDC Require Import Model.Sweep Model.SweepExec.',
+                'Import ListNotations.', 'Definition cases : list (vcase * list Qc) := [', ';\n'.join(vcases), '].',
+                'Eval vm_compute in map check_verlet_case cases.']
+        rc, out = ck.coqc(ck.write_gen('VerletCases.v', '\n'.join(body) + '\n'), timeout=900)
+        if rc != 0:
+            ck.obligation('verlet model evaluation', False, out[-800:])
+            ck.violation('generated verlet cases do not compile/evaluate', {'log': out[-3000:]}, match={'kind': 'gen'}, no_input=True)
+        else:
+            res = parse_coq_value(eval_outputs(out)[0])
+            nb = sum(1 for r in res if r != -1)
+            ck.traces += len(res)
+            if nb:
+                ck.violation('verlet: model and real sweeper differ on %d of %d cases' % (nb, len(res)),
+                             {'correspondence': 'Model/SweepExec.run_verlet vs verlet.update_nodes', 'first_differing': [r for r in res if r != -1][:5]},
+                             match={'kind': 'verlet-correspondence'}, no_input=True)
+            ck.obligation('exact correspondence verlet model = implementation on %d cases' % len(res), nb == 0)
